@@ -2,7 +2,7 @@
 (V3), guarded probes (V6), configuration raises at projection time (V7)."""
 import ast
 
-from ..model import (AnalysisError, FunctionInfo, ClassInfo, dotted, norm_text,
+from ..model import (AnalysisError, FunctionInfo, orelse_view, ClassInfo, dotted, norm_text,
                      names_read, call_args, const_value, is_none,
                      walk_no_nested_defs)
 from ..cfg import CFG, ReachingDefs, structural_guards, _terminates, _path_to
@@ -101,6 +101,8 @@ def dispatch_chains(fn_node):
   Yields Chain objects (only the head If of each chain)."""
   heads = []
   elifs = set()
+  orelse_of = orelse_view(fn_node)
+
   for n in ast.walk(fn_node):
     if isinstance(n, ast.If) and len(n.orelse) == 1 and isinstance(
         n.orelse[0], ast.If):
@@ -108,7 +110,11 @@ def dispatch_chains(fn_node):
   for n in ast.walk(fn_node):
     if isinstance(n, ast.If) and id(n) not in elifs:
       heads.append(n)
+  heads.sort(key=lambda n: (n.lineno, n.col_offset))
+  consumed = set()
   for h in heads:
+    if id(h) in consumed:
+      continue
     var = None
     t = h.test
     if isinstance(t, ast.Compare) and len(t.ops) == 1:
@@ -127,6 +133,8 @@ def dispatch_chains(fn_node):
     if var is None:
       continue
     ch = Chain(var, h)
+    ch.arms = []
+    ch.else_body = []
     cur = h
     ok = True
     remaining_raise = False
@@ -148,11 +156,21 @@ def dispatch_chains(fn_node):
           remaining_raise = True
         else:
           ch.handled |= {'<other than %s>' % sorted(map(str, neg))}
-      if len(cur.orelse) == 1 and isinstance(cur.orelse[0], ast.If):
-        cur = cur.orelse[0]
+      ch.arms.append(cur)
+      oe = orelse_of(cur)
+      if oe and isinstance(oe[0], ast.If) and (
+          len(oe) == 1 or not cur.orelse) and _test_literals(
+              oe[0].test, var) is not None:
+        cur = oe[0]
+        consumed.add(id(cur))
         continue
-      if cur.orelse:
-        ch.else_kind = 'raise' if _always_raises(cur.orelse) else 'body'
+      if not cur.orelse and _always_raises(cur.body):
+        # `if x not in (...): raise` followed by the rest of the function is
+        # a guard, not a two-armed dispatch
+        oe = []
+      ch.else_body = oe
+      if oe:
+        ch.else_kind = 'raise' if _always_raises(oe) else 'body'
       else:
         ch.else_kind = 'none'
       break
